@@ -529,6 +529,11 @@ struct EvalChecks {
                     TR::init(w, {symbol("x")}, {symbol("x")}, 0);
                 } catch (...) {
                 }
+                try { // ... and the first exception ever thrown (the unwinder indexes the frame tables of the whole binary once)
+                    V w;
+                    TR::init(w, {symbol("x")}, {symbol("warmup_unknown_symbol")}, 0);
+                } catch (...) {
+                }
             }
             fflush(c.out);
             pid_t p = fork();
